@@ -58,6 +58,8 @@ func runMem(cx *Ctx, typ, method string) *memRun {
 			return c.Atom("DeepEqual("+strings.Join(ds, ",")+")", 1), true
 		},
 	}
+	// generic helpers of the standard library that are plain loops over a map
+	in.InterpretExternal = map[string]bool{"maps.Copy": true, "maps.Equal": true, "maps.EqualFunc": true, "maps.DeleteFunc": true}
 	m := &memRun{c: c, in: in, tr: tr, fn: fn}
 	var args []absint.Value
 	for i, p := range fn.Params {
